@@ -618,7 +618,7 @@ class Facts:
         return cg
 
     def _ops_refs(self, op, out):
-        if op.get("k") == "const":
+        if isinstance(op, dict) and op.get("k") == "const":
             if "fn" in op and op["fn"] in self.fns:
                 out.add(op["fn"])
             if "closure" in op and op["closure"] in self.fns:
@@ -631,8 +631,10 @@ class Facts:
                 out.add(rv["closure"])
             for o in rv["ops"]:
                 self._ops_refs(o, out)
-        elif k in ("use", "cast", "unop", "repeat"):
-            self._ops_refs(rv.get("op") or rv.get("a"), out)
+        elif k in ("use", "cast", "repeat"):
+            self._ops_refs(rv.get("op"), out)
+        elif k == "unop":
+            self._ops_refs(rv.get("a"), out)
         elif k == "binop":
             self._ops_refs(rv["a"], out)
             self._ops_refs(rv["b"], out)
